@@ -53,6 +53,8 @@ opkinds! {
     Flatten = "flatten",              // [nest_slot]
     Unflatten = "unflatten",          // [slot, n]
     NestGen = "nest_generate",        // [nest_idx]
+    NestClone = "nest_clone",         // [nest_slot]
+    NestIntoIter = "nest_into_iter",  // [nest_slot, take, back]
     // heap interop
     ArrToVec = "arr_to_vec",          // [slot, boxed_slice]
     ArrBox = "arr_box",               // [slot]
